@@ -136,6 +136,10 @@ pub trait Property: Sync {
     fn shrink_iters(&self) -> u32 {
         2000
     }
+    /// cases per job (smaller for expensive cases, so that work spreads over all threads)
+    fn shard_size(&self) -> u64 {
+        SHARD
+    }
     /// a single case running longer than this is reported as non-termination
     fn watchdog_secs(&self) -> u64 {
         300
@@ -331,7 +335,7 @@ pub fn run_property<P: Property>(p: &P, cfg: &RunCfg) -> Value {
         }
         let mut shard = 0usize;
         while n > 0 {
-            let k = n.min(SHARD);
+            let k = n.min(p.shard_size().max(1));
             jobs.push((ci, shard, k));
             shard += 1;
             n -= k;
